@@ -29,6 +29,7 @@ CLASS_PROPERTY = {
     "unstable_in_epoch": "C06",
     "hang": None,
     "stuck": None,
+    "abort": None,
     "panic": None,
     "half_published": "C05",
     "panic_swallowed": "C05",
